@@ -59,6 +59,9 @@ class CallMixin:
             if fnode is not None:
                 return self.call_user('%s.%s' % (dc, name), recv, args, kwargs, st, node)
         if isinstance(recv, SRef):
+            h = self.externals.get('method:%s.%s' % (recv.cls.name, name))
+            if h is not None:
+                return h(self, [recv] + list(args), kwargs, st, node)
             return self.call_container_method(recv, name, args, kwargs, st, node)
         if isinstance(recv, SVal):
             # method of an opaque object (e.g. E.keys): handled by the external table if declared
